@@ -127,6 +127,13 @@ CHECKS = {
                required_probes=["knob-queries"]),
     "C17": chk([e1("seq", 1, stable=1)], SEQ_RULE, "Seeded histories on tables with stable row ids; created-at / last-updated version of every row and inserted/updated deltas for random version pairs equal the lineage model."),
     "C18": chk([e1("seq", 2, stable=1), e1("conc", 1, stable=1)], SEQ_RULE, "Seeded histories and concurrent rounds with stable row ids; every logical row keeps its id, ids unique and never re-issued, take_rows(id) returns the current image."),
+    "C36": chk([{"engine": "e5", "opts": [], "weight": 1}],
+               "one run = a seeded sequence (5-14) of create/drop/exists/describe/list calls on tables and (with the manifest table) nested namespaces of a "
+               "DirectoryNamespace over the simulated store (arbitrary listing order), in directory-listing, manifest or dual mode, names drawn from ordinary ones "
+               "and delimiter/quote/dot/slash/unicode/space ones, random page sizes; distinct = distinct (mode, operation-kind sequence); non-trivial = >= 3 operations",
+               "Consistency oracle: the names whose creation was acknowledged and that were not dropped are exactly what exists/list/describe report after every step "
+               "(no operation affects another name, accepted names are stored faithfully), and start-after paging returns every entry exactly once.",
+               required_probes=["table-created", "paged-listings"]),
     "C37": chk([e1("seq", 1)], SEQ_RULE, "Partial claim (history part): after every commit reader/writer flags match contents (deletion files, stable row ids, config, base paths) and every data file carries the table's storage version."),
     "C19": chk([e1("seq", 1)], SEQ_RULE, "Seeded histories that grow/delete/update/compact/optimize exact scalar indices; every random predicate returns the same rows with and without the index."),
     "C20": chk([e1("seq", 1)], SEQ_RULE, "As C19 for zone-map, bloom-filter and n-gram indices with random parameters."),
@@ -165,7 +172,7 @@ CHECKS = {
 }
 
 # properties whose checks are registered in MANIFEST.json (clean on the unchanged tree)
-REGISTERED = ["C01", "C02", "C03", "C04", "C05", "C06", "C07", "C08", "C09", "C10", "C11", "C12", "C13", "C14", "C15", "C16", "C17", "C18", "C19", "C20", "C24", "C30", "C31", "C33", "C37", "C38", "C39", "C41", "C42"]
+REGISTERED = ["C01", "C02", "C03", "C04", "C05", "C06", "C07", "C08", "C09", "C10", "C11", "C12", "C13", "C14", "C15", "C16", "C17", "C18", "C19", "C20", "C24", "C30", "C31", "C33", "C36", "C37", "C38", "C39", "C41", "C42"]
 
 PURE = "pure function of its inputs: no task, timer, storage call, clock, fault or second party for a scheduler or fault injector to decide (DESIGN.md section 6)"
 NOT_APPLICABLE = {
